@@ -1,30 +1,10 @@
 #![no_main]
-// bytes -> indices into the token alphabet A (+ separator choices) -> same oracles; reaches
-// grammar logic instead of dying in the lexer
+// bytes -> indices into the token alphabet A + separator choices -> the same text oracles (reaches grammar logic instead of dying in the lexer)
 mod common;
 use libfuzzer_sys::fuzz_target;
-use oq3_verif_harness::textgen::ALPHABET;
-use oq3_verif_harness::textprops::oracle_text;
 
 fuzz_target!(|data: &[u8]| {
     common::init();
-    let mut text = String::new();
-    for pair in data.chunks(2) {
-        let tok = &ALPHABET[pair[0] as usize % ALPHABET.len()];
-        text.push_str(tok.text);
-        if tok.line {
-            text.push('\n');
-        } else {
-            match pair.get(1).copied().unwrap_or(0) % 8 {
-                0 => {}
-                1 | 2 | 3 | 4 => text.push(' '),
-                5 => text.push('\n'),
-                6 => text.push_str("/*c*/"),
-                _ => text.push('\t'),
-            }
-        }
-    }
-    let mut fails = vec![];
-    oracle_text(&text, &mut fails);
+    let (_, fails) = oq3_verif_harness::fuzzrun::oracle("fz_tokens", data);
     common::judge(fails, &["C01:", "C02:", "C11:", "C12:", "C14:"]);
 });
